@@ -134,8 +134,8 @@ func Changes(cmd CommandRunner, baseBranch string, filter PathFilter) ([]*FileCh
 			)
 			change.Commits = append(change.Commits, prev.Commits...)
 			change.Path.Before = prev.Path.Before
-			// Remove any changes for "BEFORE" path we might already have
-			changes = changesWithout(changes, srcPath)
+			// Remove the change for "BEFORE" path we already have
+			changes = changesWithout(changes, prev)
 		} else {
 			slog.Debug("No previous change found")
 			switch change.Status {
@@ -246,14 +246,17 @@ func Changes(cmd CommandRunner, baseBranch string, filter PathFilter) ([]*FileCh
 	return changes, nil
 }
 
-func changesWithout(changes []*FileChange, fpath string) []*FileChange {
+func changesWithout(changes []*FileChange, fc *FileChange) []*FileChange {
 	return slices.DeleteFunc(changes, func(e *FileChange) bool {
-		return e.Path.After.Name == fpath
+		return e == fc
 	})
 }
 
+// There might be more than one change with the same path, if a file was deleted
+// and then another file was renamed to use the same path. The old file is gone
+// so any further changes to that path are for the most recent one.
 func getChangeByPath(changes []*FileChange, fpath string) *FileChange {
-	for _, c := range changes {
+	for _, c := range slices.Backward(changes) {
 		if c.Path.After.Name == fpath {
 			return c
 		}
